@@ -33,6 +33,7 @@ fn each_scenario<S: serde::de::DeserializeOwned>(
         if line.trim().is_empty() {
             continue;
         }
+        util::CURRENT_SCENARIO.store(n, std::sync::atomic::Ordering::SeqCst);
         match serde_json::from_str::<S>(&line) {
             Ok(scn) => {
                 if let Err(e) = f(n, &scn) {
@@ -108,6 +109,54 @@ fn main() {
         "sdk" => {
             let l = sdk_lens::SdkLens::new(&work);
             each_scenario::<sdk_lens::Scenario>(&input, &mut tool_errors, |n, s| l.run_scenario(n, s, &mut out))
+        }
+        "cachehang" => {
+            // demonstration helper (not used by any check): `--work dir --in populate|load`. A restart needs a NEW process here,
+            // because the cache memory tracker is a process-global. populate: 2 partitions, 10 messages in one batch to the
+            // first, 1 message to the second, graceful stop. load: start on the same directory under a 15 s watchdog.
+            use iggy::client::{MessageClient, StreamClient, TopicClient};
+            let cfg = srv::ScnConfig { cache: "tiny".into(), save_threshold: 1, ..Default::default() };
+            let config = srv::build_config(&work, &cfg, srv::ENC_KEY_A);
+            let mut config = config;
+            if let Ok(v) = std::env::var("CACHE_BYTES") {
+                if let Some(c) = std::sync::Arc::get_mut(&mut config) {
+                    c.cache.size = format!("{v} B").parse().expect("cache size");
+                }
+            }
+            if input == "populate" {
+                let _ = std::fs::remove_dir_all(&work);
+                std::fs::create_dir_all(&work).unwrap();
+                let inc = srv::start(config, &cfg, false).expect("start");
+                let c = inc.rt.block_on(srv::tcp_root(inc.tcp)).expect("client");
+                inc.rt.block_on(async {
+                    use iggy::messages::send_messages::{Message, Partitioning};
+                    let s1 = iggy::identifier::Identifier::numeric(1).unwrap();
+                    c.create_stream("s", Some(1)).await.unwrap();
+                    let parts: u32 = std::env::var("P").ok().and_then(|v| v.parse().ok()).unwrap_or(2);
+                    let k: u32 = std::env::var("K").ok().and_then(|v| v.parse().ok()).unwrap_or(3);
+                    c.create_topic(&s1, "t", parts, iggy::compression::compression_algorithm::CompressionAlgorithm::None, None, Some(1),
+                        iggy::utils::expiry::IggyExpiry::NeverExpire, iggy::utils::topic_size::MaxTopicSize::Unlimited).await.unwrap();
+                    for p in 1..=parts {
+                        for i in 0..k {
+                            let mut one = vec![Message::new(None, bytes::Bytes::from(format!("message-{p}-{i:06}")), None)];
+                            c.send_messages(&s1, &s1, &Partitioning::partition_id(p), &mut one).await.unwrap();
+                        }
+                    }
+                });
+                drop(c);
+                let _ = srv::stop(inc, true);
+                println!("populated");
+            } else {
+                std::thread::spawn(|| {
+                    std::thread::sleep(std::time::Duration::from_secs(15));
+                    println!("HANG: the server did not finish starting within 15 s");
+                    std::process::exit(3);
+                });
+                let inc = srv::start(config, &cfg, false).expect("start");
+                println!("started");
+                let _ = srv::stop(inc, false);
+            }
+            return;
         }
         "grp" => {
             let l = grp_lens::GrpLens::new(&work);
